@@ -369,7 +369,7 @@ func genRandom(t *rapid.T) Case {
 
 func TestRandom(t *testing.T) {
 	pbt.Run(t, pbt.Sub[Case]{
-		Name: "random", Quick: 72000, Thorough: 1500000,
+		Name: "random", Quick: 240000, Thorough: 5000000,
 		Gen: genRandom, Check: check,
 	})
 }
@@ -515,7 +515,7 @@ func splice(s []byte, from, to int, with []byte) []byte {
 
 func TestTemplates(t *testing.T) {
 	pbt.Run(t, pbt.Sub[Case]{
-		Name: "templates", Quick: 78000, Thorough: 1500000,
+		Name: "templates", Quick: 260000, Thorough: 5000000,
 		Gen: genTemplateCase, Check: check,
 		Enum:     enumTemplates,
 		EnumDesc: "12 fixed template instances (P2PKH, P2SH, P2PK 33/65, 1-of-1 and 2-of-3 multisig, OP_RETURN and OP_FALSE OP_RETURN data, three P2PKH inscriptions incl. a minimal one and one with an OP_RETURN tail): unmutated, every byte set to every other value, every prefix, every instruction replaced by / preceded by OP_0 and zero-length PUSHDATA1/2/4, removed, duplicated, every push shortened to 1 and 2 bytes, re-encoded in every wider push form, with its data cut, and the whole template followed by each of 7 unterminated pushes; plus all sequences of <= 3 (thorough: <= 5) atoms from {4c00, 4d0000, 00, 51, ae, ac, 21<key>}",
